@@ -26,7 +26,7 @@ Definition wf_ws_frame (from_server : bool) (bytes : list byte) : Prop :=
 Fixpoint xor_key (i : nat) (key l : list byte) : list byte :=
   match l with
   | [] => []
-  | b :: r => N.lxor b (nth (Nat.modulo i 4) key 0) :: xor_key (S i) key r
+  | b :: r => N.lxor b (nth (Nat.modulo i 4) key 0) :: xor_key (Nat.modulo (S i) 4) key r
   end.
 
 Record sframe := mkSF { sf_b0 : N; sf_masked : bool; sf_minimal : bool; sf_len : N; sf_payload : list byte }.
